@@ -123,6 +123,33 @@ func (p *PKI) reloadCerts(c *config.C, initial bool) *util.ContextualError {
 	}
 
 	if currentState != nil {
+		// The per-version checks below only compare a certificate with its predecessor of the same
+		// version. A reload that replaces the only certificate with one of the other version must not
+		// slip past them with a different curve or primary network.
+		oldCrt, newCrt := currentState.getCertificate(cert.Version2), newState.getCertificate(cert.Version2)
+		if oldCrt == nil {
+			oldCrt = currentState.getCertificate(cert.Version1)
+		}
+		if newCrt == nil {
+			newCrt = newState.getCertificate(cert.Version1)
+		}
+		if oldCrt != nil && newCrt != nil {
+			if oldCrt.Curve() != newCrt.Curve() {
+				return util.NewContextualError(
+					"Curve in new cert was different from old",
+					m{"new_curve": newCrt.Curve(), "old_curve": oldCrt.Curve()},
+					nil,
+				)
+			}
+			if oldCrt.Networks()[0] != newCrt.Networks()[0] {
+				return util.NewContextualError(
+					"Primary network in new cert was different from old",
+					m{"new_network": newCrt.Networks()[0], "old_network": oldCrt.Networks()[0]},
+					nil,
+				)
+			}
+		}
+
 		if newState.v1Cert != nil {
 			if currentState.v1Cert == nil {
 				//adding certs is fine, actually. Networks-in-common confirmed in newCertState().
